@@ -36,7 +36,8 @@ M['C18'] = [
     dict(id='c18-missing-definition', kind='fault', rule='H2', edits=[
         ('src/vector.c', 'void cstl_vector_shrink_to_fit(struct cstl_vector * const v)', 'static void cstl_vector_shrink_to_fit_(struct cstl_vector * const v)')]),
     dict(id='c18-missing-include', kind='fault', rule='H3', edits=[
-        ('include/cstl/map.h', '#include "cstl/rbtree.h"', '')]),
+        ('include/cstl/map.h', '#include "cstl/rbtree.h"', ''),
+        ('src/map.c', '#include "cstl/map.h"', '#include "cstl/rbtree.h"\n#include "cstl/map.h"')]),
     dict(id='c18-no-include-guard', kind='fault', rule='H3', edits=[
         ('include/cstl/dlist.h', '#ifndef CSTL_DLIST_H\n#define CSTL_DLIST_H', ''),
         ('include/cstl/dlist.h', '/*!\n * @}\n */\n\n#endif', '/*!\n * @}\n */\n')]),
@@ -62,7 +63,7 @@ M['C20'] = [
         ('src/array.c', '    s->off = a->off + beg;\n    s->len = end - beg;\n    if (a != s) {\n        cstl_shared_ptr_share(&a->ptr, &s->ptr);\n    }',
          '    if (a != s) {\n        cstl_array_reset(s);\n        *s = *a;\n        cstl_shared_ptr_share(&a->ptr, &s->ptr);\n    }\n    s->off = a->off + beg;\n    s->len = end - beg;')]),
     dict(id='c20-array-reset-inits-first', kind='fault', rule='G4', site='cstl_array_alloc', edits=[
-        ('src/array.c', '    cstl_shared_ptr_reset(&a->ptr);\n    cstl_shared_ptr_alloc(&a->ptr, sizeof(*ra) + nm * sz, NULL);', '    if (nm == 0) {\n        cstl_shared_ptr_init(&a->ptr);\n    }\n    cstl_shared_ptr_reset(&a->ptr);\n    cstl_shared_ptr_alloc(&a->ptr, sizeof(*ra) + nm * sz, NULL);')]),
+        ('src/array.c', '    cstl_array_reset(a);\n    if (sz != 0', '    if (nm == 0) {\n        cstl_shared_ptr_init(&a->ptr);\n    }\n    cstl_array_reset(a);\n    if (sz != 0')]),
     dict(id='c20-benign-getter-inverted', kind='benign', edits=[
         ('include/cstl/memory.h', '    if (gp->self != gp) {\n        abort();\n    }\n    return gp->ptr;', '    if (gp->self == gp) {\n        return gp->ptr;\n    }\n    abort();')]),
     dict(id='c20-benign-swap-order', kind='benign', edits=[
